@@ -20,6 +20,8 @@ def AND(
     for logical in logicals:
         val = logical()
         for item in xl.flatten([val]):
+            if isinstance(item, xlerrors.ExcelError):
+                raise item
             if func_xltypes.Blank.is_blank(item):
                 continue
             if not bool(item):
@@ -56,6 +58,8 @@ def OR(
     for logical in logicals:
         val = logical()
         for item in xl.flatten([val]):
+            if isinstance(item, xlerrors.ExcelError):
+                raise item
             if func_xltypes.Blank.is_blank(item):
                 continue
             if bool(item):
